@@ -596,7 +596,8 @@ def _parse_experimental_function_value_info_name(
         A tuple of the function domain, function name and value name if the value info is for a function.
         None otherwise.
     """
-    parts = name.split("/")
+    # Only the first "/" separates the function from the value: value names may contain "/"
+    parts = name.split("/", 1)
     expected_parts = 2
     if len(parts) != expected_parts:
         return None
